@@ -153,7 +153,17 @@ def gcd(ra1, dec1, ra2, dec2):
     a += np.cos(np.radians(dec1)) \
         * np.cos(np.radians(dec2)) \
         * np.sin(np.radians(dlon) / 2) ** 2
-    sep = np.degrees(2 * np.arcsin(np.minimum(1, np.sqrt(a))))
+    # arcsin(sqrt(a)) looses precision near the antipode (a -> 1), so also
+    # compute b = 1 - a = cos^2(sep/2) as a sum of non-negative terms
+    b = np.sin(np.radians(dec1 + dec2) / 2) ** 2
+    b += np.cos(np.radians(dec1)) \
+        * np.cos(np.radians(dec2)) \
+        * np.cos(np.radians(dlon) / 2) ** 2
+    sep = np.where(a > 0.5,
+                   180 - np.degrees(2 * np.arcsin(np.minimum(1, np.sqrt(b)))),
+                   np.degrees(2 * np.arcsin(np.minimum(1, np.sqrt(a)))))
+    if np.ndim(sep) == 0:
+        sep = sep[()]
     return sep
 
 
